@@ -33,6 +33,7 @@ type Ctx struct {
 	limbPositional bool
 	limbInts       []int64 // concrete values for integer parameters (variant comparison)
 	cglob          map[string]map[string]absint.Val
+	pointOps       map[string]*absint.PointOp
 	Extra          map[string]interface{}
 }
 
@@ -50,6 +51,9 @@ func NewCtx(tier string) *Ctx {
 		}
 		v, ok := m[key]
 		return v, ok && v != nil
+	}
+	absint.PointOpHook = func(p *load.Program, fn *ssa.Function) (*absint.PointOp, bool) {
+		return c.recognisePointOp(p.Config.Name, fn)
 	}
 	return c
 }
